@@ -277,6 +277,15 @@ UNEVALUABLE = [
 ]
 
 
+UNEVALUABLE_NUM = [
+    ['call', 'period', [['str', 'week']]],
+    ['bin', '*', ['call', 'period', [['str', 'week']]], ['num', 5]],
+    ['bin', '+', ['name', 'months'], ['name', 'category']],
+    ['name', 'nosuchname'],
+    ['call', 'sum', [['name', 'months']]],
+]
+
+
 @st.composite
 def views_file(draw):
     gnames = draw(st.lists(st.sampled_from(VAR_NAMES), max_size=2, unique=True))
@@ -302,7 +311,18 @@ def views_file(draw):
             lvars = lvars + chain
             last = ['cmp', ['var', f'step{depth}'], [[draw(st.sampled_from(['>', '<=', '>='])), ['num', draw(st.sampled_from(NUMS))]]]]
             flt = draw(st.sampled_from([last, ['and', [last, flt]], ['or', [flt, last]]]))
+        if lvars and draw(st.integers(0, 4)) == 0:
+            # a view-local variable that CANNOT be evaluated for the merchant (period("week") is never supplied, a number plus a text ...): it is
+            # None from there on - it neither keeps the value of a global of the same name nor stays undefined - and the filter may tolerate that
+            k = draw(st.integers(0, len(lvars) - 1))
+            lvars = [list(x) for x in lvars]
+            lvars[k][1] = draw(st.sampled_from(UNEVALUABLE_NUM))
+            bad = ['var', lvars[k][0]]
+            tolerant = draw(st.sampled_from([['cmp', bad, [['==', ['lit', None, 'None']]]], ['not', bad], ['or', [bad, flt]], ['cmp', bad, [['>', ['num', 10]]]], flt]))
+            flt = draw(st.sampled_from([tolerant, ['and', [tolerant, flt]], ['or', [flt, tolerant]]]))
         views.append({'name': vn, 'vars': lvars, 'filter': flt})
+    if globals_ and draw(st.integers(0, 7)) == 0:
+        globals_[draw(st.integers(0, len(globals_) - 1))][1] = draw(st.sampled_from(UNEVALUABLE_NUM))
     return {'globals': globals_, 'views': views}
 
 
